@@ -131,6 +131,7 @@ class BrokerState:
                     last_exception=attempt.last_exception,
                     last_failed_at=attempt.last_failed_at,
                     recovery_counts=dict(attempt.recovery_counts),
+                    worker_id=attempt.worker_id,
                 )
                 for attempt in [*worker_state.in_progress, *worker_state.queue]
             ]
@@ -209,6 +210,7 @@ class BrokerState:
                     last_exception=attempt.last_exception,
                     last_failed_at=attempt.last_failed_at,
                     recovery_counts=dict(attempt.recovery_counts),
+                    worker_id=attempt.worker_id,
                 )
                 for attempt in worker_data.queue
             ]
@@ -328,6 +330,12 @@ class EventAttempt:
     last_exception: Exception | None = None
     last_failed_at: float | None = None
     recovery_counts: dict[str, int] = field(default_factory=dict)
+    # Worker slot the event was executing on before the run was interrupted, if
+    # any: it is restarted on that slot. Result ticks name an execution by its
+    # worker id and the tick log does not record a restart, so a resumed run that
+    # renumbered its workers would append ticks which a later replay of the whole
+    # log applies to the wrong execution (or to none).
+    worker_id: int | None = None
 
 
 @dataclass()
